@@ -95,6 +95,7 @@ Verdicts(r) ==
            \cup (IF rp.plain.present THEN PlainOnce(rp.plain.lines, X, a) ELSE {})
            \cup ProgressOnce(rp.p2.lines, rp.p3.lines, rp.p2.present, rp.p3.present, X, a)
            \cup Agree(J, hasJ, rp.plain.lines, rp.plain.present, rp.p3.lines, rp.p3.present, X, a)
+           \cup ScenarioMarks(rp.p1.lines, rp.p1.present, X, a)
            \cup (IF rp.error # "" THEN {<<"C15.no_crash", "report_unreadable:" \o rp.error>>} ELSE {})
 
 \* ---------------------------------------------------------------- conformance of the automata (informational)
